@@ -21,7 +21,7 @@ def cases(tier):
   yield {'laws': True}
   yield from universe.multi_cases(
       eg.TTOPO + ['CONV_2D', 'EMBEDDING_LOOKUP', 'MUL'], {'rp': 'p3', 'nd': 2})
-  yield from universe.graph_cases([(1, eg.T21 + eg.U, 'all', 'none')],
+  yield from universe.graph_cases([(1, eg.T21 + eg.U, 'allx', 'none')],
                                   {'rp': 'p12', 'nd': 3})
   yield from universe.graph_cases(
       [(2, eg.T21 + eg.U, 'first', 'one')], {'rp': 'p12', 'nd': 1},
